@@ -214,6 +214,13 @@ where
     }
 
     fn post_reorder_mut(manager: &mut M) {
+        // In case of nested calls (e.g., adding variables inside a
+        // `Manager::reorder()` closure), an inner call has already rebuilt the
+        // tautologies. Release them first, otherwise their references leak.
+        if !manager.zbdd_cache().tautologies.is_empty() {
+            Self::pre_reorder_mut(manager);
+        }
+
         // Build the tautologies bottom up
         //
         // Storing the edge for `ZBDDTerminal::Base` as well enables us to return
